@@ -31,7 +31,7 @@ func (c09) Cases(tier string, seed int64, kf *KnownFindings) []Case {
 	var cs []Case
 	add := func(c Case) { c.Sub = -1; cs = append(cs, c) }
 	add(Case{Kind: "bulk", Seed: Mix(seed, 4245)})
-	add(Case{Kind: "dup", Count: 5})
+	add(Case{Kind: "dup", Count: 8})
 	if tier == "quick" {
 		lens := []int{0, 1, 2, 15, 16, 30, 31, 32, 33, 255, 256, 1022, 1023, 1024, 1025, 2046, 2047, 2048, 2049, 2050, 4095, 4096, 4097, 4098, 6143, 6144, 6145, 6184}
 		for _, cl := range strClasses {
@@ -290,6 +290,10 @@ func (c09) Run(c Case, env *Env) Result {
 		vals := []interface{}{
 			&zoo.SlBin{V: [][]byte{b, {9}, b}}, &zoo.SlBin{V: [][]byte{{}, {}, nil}}, &zoo.MpStrBin{M: map[string][]byte{"a": b, "b": b}},
 			[]interface{}{b, b, "s", "s"}, &zoo.SlBin{V: [][]byte{b[:2], b[:2], b}},
+			// a chunked binary first, then one-chunk binaries (a decoder re-using its chunk buffer would alias them)
+			&zoo.SlBin{V: [][]byte{bytes.Repeat([]byte{7}, 5000), bytes.Repeat([]byte{1}, 100), bytes.Repeat([]byte{2}, 50), bytes.Repeat([]byte{3}, 4096), {4, 4}}},
+			&zoo.MpStrBin{M: map[string][]byte{"big": bytes.Repeat([]byte{9}, 9000), "s1": {1, 1, 1}, "s2": {2, 2}}},
+			[]interface{}{strings.Repeat("L", 5000), "short", strings.Repeat("é", 2049), "x"},
 		}
 		for j, v := range vals {
 			if c.Sub >= 0 && c.Sub != j {
